@@ -27,6 +27,10 @@ func c05CloneCase(c *c05Case) *c05Case {
 	n.ops = append([]c05Op{}, c.ops...)
 	n.addrs = append([]c05Addr{}, c.addrs...)
 	n.allowed = append([]string{}, c.allowed...)
+	if c.inputs != nil {
+		p := c05PClone(c)
+		n.files, n.inputs = p.files, p.inputs
+	}
 	if c.ss != nil {
 		n.ss = c05Clone(c.ss)
 	}
@@ -373,6 +377,8 @@ func c05Shrink(c *c05Case, budget int) *c05Case {
 			} else {
 				changed = c05JSONCandidates(best.src, try)
 			}
+		case "c05popt":
+			best, changed = c05PShrinkStep(best, same)
 		case "c05load":
 			// a repository file: nothing to shrink
 		default:
